@@ -303,6 +303,24 @@ let handle () =
        String.concat " " (List.map (fun (a, n) -> i a ^ ":" ^ i n) o.o_bridge) ^ " ## " ^
        String.concat " ;; " (List.map (fun ((r, l), rs) -> rt r ^ " " ^ i l ^ " : " ^ String.concat " // " (List.map (fun (t, p) -> rule t ^ " => " ^ rule p) rs)) o.o_cons) ^ " ## " ^
        String.concat " ;; " (List.map (fun ((r, k), rng) -> rt r ^ " " ^ (match k with KMain -> "main" | KTmp l -> "tmp" ^ i l | KPerm l -> "perm" ^ i l) ^ " " ^ ids rng) o.o_parts) ^ " ## " ^ i o.o_naux)
+  | "csym" ->
+    (* csym <tterm> with tterm ::= N <int> | S <hex name> | F <hex name> <k> tterm.. | T <k> tterm.. | L <k> tterm.. : Model/Symbols.create_symbol,
+       the result printed the way clingo prints a symbol *)
+    let unhex h = String.init (String.length h / 2) (fun i -> Char.chr (int_of_string ("0x" ^ String.sub h (2 * i) 2))) in
+    let name () = match next () with "-" -> coq_string "" | h -> coq_string (unhex h) in
+    let rec tt () = match next () with
+      | "N" -> TNum (z_of_int (int ())) | "S" -> TSym (name ()) | "F" -> let n = name () in TFun (n, list tt) | "T" -> TTup (list tt) | "L" -> TSeq (list tt)
+      | s -> failwith ("tterm " ^ s) in
+    let esc s = String.concat "" (List.map (fun c -> match c with '\\' -> "\\\\" | '"' -> "\\\"" | '\n' -> "\\n" | c -> String.make 1 c) (List.init (String.length s) (String.get s))) in
+    let rec show = function
+      | YNum z -> string_of_int (int_of_z z) | YStr x -> "\"" ^ esc (ocaml_string x) ^ "\"" | YInf -> "#inf" | YSup -> "#sup"
+      | YFun (n, args, pos) ->
+        let a = List.map show args in
+        (if pos then "" else "-") ^
+        (match ocaml_string n, a with
+         | "", [x] -> "(" ^ x ^ ",)" | "", _ -> "(" ^ String.concat "," a ^ ")"
+         | nm, [] -> nm | nm, _ -> nm ^ "(" ^ String.concat "," a ^ ")") in
+    (match create_symbol (tt ()) with Some y -> show y | None -> "raises")
   | "ivs" ->
     (* ivs <n> { <left> <right> } : Model/IntervalSet.of_list *)
     let xs = list (fun () -> let a = int () in let b = int () in (z_of_int a, z_of_int b)) in
